@@ -27,16 +27,18 @@ type gatedCase struct {
 }
 
 type counter struct {
-	n     atomic.Int32
+	n     atomic.Int32 // completed invocations (incremented last: whoever sees n >= 1 also sees a kind)
+	slot  atomic.Int32
 	kinds [4]atomic.Value
 }
 
 func (c *counter) handler() stun.Handler {
 	return func(e stun.Event) {
-		i := c.n.Add(1)
+		i := c.slot.Add(1)
 		if int(i) <= len(c.kinds) {
 			c.kinds[i-1].Store(classifyEvent(e))
 		}
+		c.n.Add(1)
 	}
 }
 
